@@ -24,7 +24,7 @@ META = dict(
     stubs=['time.process_time: symbolic clock', 'numba kernels interpreted'],
 )
 KINDS = ['rows', 'length', 'words', 'traces-3d', 'traces-1d', 'traces-text', 'type-traces', 'type-data', 'dpa-range', 'auto-255', 'auto-bad-dtype', 'template-2words', 'template-auto-2words', 'match-before-build']
-DISTS = ['CPA', 'CPAAlt', 'DPA', 'ANOVA', 'SNR-auto', 'NICV', 'MIA', 'TemplateBuild', 'TemplateBuild-auto', 'TemplateMatch']
+DISTS = ['CPA', 'CPAAlt', 'DPA', 'ANOVA', 'SNR-auto', 'NICV', 'MIA', 'TemplateBuild', 'TemplateBuild-auto', 'TemplateMatch', 'TemplateDPAMatch']
 
 
 def prepare(tier, seed):
@@ -55,8 +55,10 @@ def make(dist):
         class TB(M['partitioned'].PartitionedDistinguisherBase, M['template']._TemplateBuildDistinguisherMixin):
             pass
         return TB(partitions=[0, 1] if dist == 'TemplateBuild' else None, precision='float64')
-    if dist == 'TemplateMatch':
-        class TM(M['template'].TemplateAttackDistinguisherMixin):
+    if dist == 'SNR-2cls':
+        return M['partitioned'].SNRDistinguisher(partitions=[0, 1], precision='float64')
+    if dist in ('TemplateMatch', 'TemplateDPAMatch'):
+        class TM(M['template'].TemplateAttackDistinguisherMixin if dist == 'TemplateMatch' else M['template'].TemplateDPADistinguisherMixin):
             pass
         o = TM(partitions=[0, 1], precision='float64')
         o.is_build = True
@@ -81,6 +83,8 @@ def good_batch(dist, tag, rows=2):
         y = S.const(rnp.array([[0], [1], [1]][:rows], dtype='uint8'))
     elif dist == 'TemplateMatch':
         y = S.const(rnp.array([[0], [1], [0]][:rows], dtype='uint8'))
+    elif dist == 'TemplateDPAMatch':
+        y = S.const(rnp.array([[0, 1], [1, 1], [0, 0]][:rows], dtype='uint8'))          # one hypothesis value per guess
     else:
         y = S.const(rnp.array([[0, 1], [2, 1], [1, 1]][:rows], dtype='uint8'))
     return x, y
@@ -98,6 +102,8 @@ def bad_call(dist, kind, pos):
     if kind == 'words':
         if pos == 'first' or dist in ('TemplateBuild', 'TemplateMatch'):
             return None
+        if dist == 'TemplateDPAMatch':
+            return x, S.const(rnp.array([[0, 1, 1], [1, 0, 1]], dtype='uint8'))      # 3 hypothesis words after 2
         if dist in ('CPA', 'CPAAlt'):
             return x, S.sym_real('ybad', (2, 3), 'uint8')      # 3 words after 2: not broadcastable, numpy refuses inside _update
         if dist == 'DPA':
@@ -125,7 +131,7 @@ def bad_call(dist, kind, pos):
     if kind == 'template-2words':
         return (x, S.const(rnp.array([[0, 1], [1, 0]], dtype='uint8'))) if dist == 'TemplateBuild' else None
     if kind == 'match-before-build':
-        return (x, y) if dist == 'TemplateMatch' and pos == 'first' else None
+        return (x, y) if dist in ('TemplateMatch', 'TemplateDPAMatch') and pos == 'first' else None
     return None
 
 
@@ -214,7 +220,7 @@ def replay(w):
             class TB(D.partitioned.PartitionedDistinguisherBase, D.template._TemplateBuildDistinguisherMixin):
                 pass
             return TB(partitions=[0, 1] if dist == 'TemplateBuild' else None, precision='float64')
-        class TM(D.template.TemplateAttackDistinguisherMixin):
+        class TM(D.template.TemplateAttackDistinguisherMixin if dist == 'TemplateMatch' else D.template.TemplateDPADistinguisherMixin):
             pass
         o = TM(partitions=[0, 1], precision='float64')
         o.is_build = kind != 'match-before-build'
@@ -231,6 +237,8 @@ def replay(w):
             y = np.array([[0, 1], [1, 1], [1, 0]][:rows], dtype='uint8')
         elif dist in ('TemplateBuild', 'TemplateBuild-auto', 'TemplateMatch'):
             y = np.array([[0], [1], [1]][:rows], dtype='uint8')
+        elif dist == 'TemplateDPAMatch':
+            y = np.array([[0, 1], [1, 1], [0, 0]][:rows], dtype='uint8')
         else:
             y = np.array([[0, 1], [2, 1], [1, 1]][:rows], dtype='uint8')
         return x, y
